@@ -97,13 +97,13 @@ def main():
         },
         "engines": [
             {"name": "nv", "path": "/verif/harness", "serves_properties": BUILT,
-             "kind_free_text": "Rust harness: runs the real library under generated/enumerated workloads; monitors = reference-model oracles, trace checkers over the hooked event log, invariant checks at quiescent points; three-valued verdicts"},
+             "kind_free_text": "Rust harness: runs the real library under generated/enumerated workloads; monitors = reference-model oracles, trace checkers over the hooked event log, invariant checks at quiescent points; three-valued verdicts; built twice (profiles release and plain)"},
             {"name": "miri", "path": "/verif/miri", "serves_properties": ["C05"] if "C05" in BUILT else [],
              "kind_free_text": "cargo +nightly miri run with -Zmiri-many-seeds: seeded scheduler as interleaving explorer + UB/data-race interpreter"},
         ],
         "checks": checks,
         "not_applicable": na,
-        "notes": "Technique family: runtime monitoring. Exit codes: 0 held on everything observed, 1 VIOLATION (replay file), 2 INCONCLUSIVE (never folded into the others). Known findings: /verif/known_findings.json.",
+        "notes": "Technique family: runtime monitoring. Exit codes: 0 held on everything observed, 1 VIOLATION (replay file), 2 INCONCLUSIVE (never folded into the others). Known findings: /verif/known_findings.json. Every check has two legs: the given tier on the main build (opt-level 3, overflow checks and debug assertions on) and its quick tier on the cargo profile `plain` (both off; directories under /verif/plain, summary line PLAIN-PROFILE-LEG, merged into the evidence file as plain_profile_leg); the exit status is the worse of the two.",
     }
     with open(os.path.join(HERE, "MANIFEST.json"), "w") as f:
         json.dump(m, f, indent=1)
